@@ -24,22 +24,22 @@ TECH = {
  "C01": "Lean 4 refinement proof + model/implementation correspondence",
  "C02": "Lean 4 invariant/refinement proof + model/implementation correspondence",
  "C03": "Lean 4 invariant proof (label store = edge set) + correspondence",
- "C04": "Lean 4 invariant proof (counters = sums of multiplicities) + correspondence",
- "C05": "Lean 4 invariant proof over exact arithmetic + correspondence",
- "C06": "Lean 4 proof (operator== iff equal abstraction) + correspondence on history pairs",
+ "C04": "Lean 4 refinement proof to a multiplicity matrix for every history (directed and undirected; graph part = base-class call, counters = sums) + correspondence incl. 32-bit boundary multiplicities",
+ "C05": "Lean 4 refinement proof over exact arithmetic for every history (directed and undirected; total = sum of present weights, weight matrix) + correspondence",
+ "C06": "Lean 4 proof (operator== iff equal abstraction, all eight classes) + correspondence on history pairs incl. non-representable totals",
  "C07": "Lean 4 proof (rejected call returns the same state) + sanitizer-backed correspondence",
- "C08": "Lean 4 proof (iterator machine = flattened adjacency) + exhaustive-shape correspondence",
- "C09": "Lean 4 proof about conversion functions + correspondence",
+ "C08": "Lean 4 proof (directed and undirected iterator machines = (filtered) flattened adjacency) + exhaustive-shape correspondence",
+ "C09": "Lean 4 proofs: reversal, edge-list constructors (= add one at a time), getDirectedGraph, Undirected(directed), round trip + correspondence",
  "C10": "Lean 4 proof (subgraph = restriction, for every iteration order) + correspondence",
- "C11": "Lean 4 proof of BFS correctness (queue-loop invariant) + correspondence on all small graphs",
+ "C11": "Lean 4 proofs: both BFS searches correct (queue-loop invariants), path reconstruction, all-shortest-paths machine = set of geodesics + correspondence on all small graphs",
  "C12": "Lean 4 proof of label-correcting Dijkstra for every legal pop order + correspondence with observed pop order",
- "C13": "Lean 4 round-trip proof of the text codec model + byte-exact correspondence",
- "C14": "Lean 4 round-trip proof of the binary codec model + byte-exact correspondence",
+ "C13": "Lean 4 proofs: tokeniser, decimal round trip, graph-level write/load round trip, vertex-name numbering + byte-exact correspondence",
+ "C14": "Lean 4 proofs: record layout and round trip, graph-level write/load round trip, integer codecs + byte-exact correspondence",
  "C15": "Lean 4 totality/truncation proof + every-cut-offset correspondence under sanitizers",
- "C16": "Lean 4 proof about forced duplicates and removeDuplicateEdges + correspondence",
+ "C16": "Lean 4 proofs about forced duplicates and removeDuplicateEdges (directed, undirected, weighted, multigraph) + correspondence",
  "C17": "multi-configuration differential run of the correspondence corpora (dynamic; Lean carries only the modelled UB classes)",
  "C18": "Lean 4 schedule-independence theorem over a source-regenerated effect table + TSan reader runs",
- "C19": "Lean 4 proof of scan bounds (pigeonhole on the queue) + exact scan-count correspondence",
+ "C19": "Lean 4 proofs of scan bounds (both BFS searches: each vertex once; Dijkstra with min pops: E+1) + exact scan-count correspondence",
  "C20": "Lean 4 theorem over source-regenerated header/linkage table + compiler matrix",
 }
 
